@@ -94,7 +94,9 @@ def set_data_row(electric, ghi):
     supplied = df.mult > 0
     # precondition of the property: on-the-hour hourly input, so every supplied label is a point of the whole-day hourly grid between the
     # first and the last supplied day (that the grid itself is right -- whole LOCAL days, DST -- is the bounded part)
-    assume(implies(supplied, on_grid()))
+    # -- now PROVED from the grid's construction: the grid runs from 00:00 of the first supplied label's day to 23:00 of the last one's (symbolic instants),
+    # so an on-the-hour supplied label is one of its points; only "labels are on the hour" is assumed
+    assume(labels_on_the_hour())
     obj = new_object(HD, warnings=fresh_seq("warnings"), disqualification=fresh_seq("disqualification"), is_electricity_data=electric, tz=None, pv_start=None,
                      _kwargs={}, _outputs=["temperature", "observed"], _to_be_interpolated_columns=[])
     out = obj._set_data(df)
